@@ -29,6 +29,11 @@ type regConn struct {
 	After int `json:"after"`
 	// AfterJoin: dial only after connection #AfterJoin joined successfully (-1: at once)
 	AfterJoin int `json:"after_join"`
+	// Invalid (scenarios with a custom key function only): heartbeats sent BEFORE the register message; the key
+	// function yields no key for them, so the connection is served but not joined yet
+	Invalid int `json:"keyless_heartbeats_first,omitempty"`
+	// NoRegister: the register message is never sent (the connection never joins)
+	NoRegister bool `json:"no_register,omitempty"`
 }
 
 type regCall struct {
@@ -42,6 +47,17 @@ type regScn struct {
 	Name  string    `json:"name"`
 	Conns []regConn `json:"conns"`
 	Calls []regCall `json:"calls"`
+	// RegKey: the server runs with service.WithKeyFunc: only a register message (0x0100) yields a key, "dev-"+phone;
+	// every other first message leaves the connection unjoined (join callback with a key-invalid error)
+	RegKey bool `json:"key_from_register_message,omitempty"`
+}
+
+// regKeyFunc is the custom key function of the RegKey scenarios.
+func regKeyFunc(m *service.Message) (string, bool) {
+	if m == nil || m.JTMessage == nil || m.JTMessage.Header == nil || m.JTMessage.Header.ID != 0x0100 {
+		return "", false
+	}
+	return "dev-" + m.JTMessage.Header.TerminalPhoneNo, true
 }
 
 type regRun struct {
@@ -92,7 +108,11 @@ func regMake(scn regScn) func() (func(), any) {
 			r.dialN[i] = -1
 		}
 		body := func() {
-			r.w = startWorld(worldOpts{})
+			wo := worldOpts{}
+			if scn.RegKey {
+				wo.keyFunc = regKeyFunc
+			}
+			r.w = startWorld(wo)
 			for i, c := range scn.Conns {
 				i, c := i, c
 				vs.GoNamed(fmt.Sprintf("term%d", i), false, func() {
@@ -105,11 +125,41 @@ func regMake(scn regScn) func() (func(), any) {
 					p := vnet.Dial(srvAddr)
 					r.setPeer(i, p)
 					ser := uint16(i * 100)
+					nrep := 0
+					if scn.RegKey {
+						for k := 0; k < c.Invalid; k++ {
+							ser++
+							p.Send(hbFrame(false, c.Phone, ser))
+							r.addSent(i, ser)
+							nrep++
+							p.Expect(nrep)
+							if p.C.Closed() {
+								return
+							}
+						}
+						if c.NoRegister {
+							if c.Close {
+								p.Close()
+							}
+							return
+						}
+						ser++
+						p.Send(ref.Encode(ref.TermHeader(0x0100, false, c.Phone, ser), ref.SampleBody(0x0100, false, c.Phone, 0)))
+						nrep++
+						p.Expect(nrep)
+						if p.C.Closed() {
+							return
+						}
+					}
 					for k := 0; k <= c.HB; k++ {
+						if scn.RegKey && k == c.HB {
+							break // the register message stands for the first message
+						}
 						ser++
 						p.Send(hbFrame(false, c.Phone, ser))
 						r.addSent(i, ser)
-						p.Expect(k + 1)
+						nrep++
+						p.Expect(nrep)
 						if p.C.Closed() {
 							return
 						}
@@ -242,6 +292,7 @@ func regCheck(res *vs.Result, user any) []vs.Violation {
 		joinCnt, leaveCnt              int
 		key, leaveKey                  string
 		lastBeforeLeave                int
+		keyless                        int
 	}
 	info := make([]*cinfo, len(conns))
 	for i := range info {
@@ -258,6 +309,11 @@ func regCheck(res *vs.Result, user any) []vs.Violation {
 				ci.firstRead = e.Step
 			}
 		case "join":
+			if r.scn.RegKey && e.Err != nil && e.Key == "" && !strings.Contains(e.Err.Error(), "exist") {
+				// no key for this message (custom key function): the connection goes on unjoined, nothing to count
+				ci.keyless++
+				continue
+			}
 			ci.joinCnt++
 			ci.joinSeen = true
 			ci.joinStep = e.Step
@@ -387,6 +443,19 @@ func c11Scenarios(thorough bool) []regScn {
 		n("refused-left-then-third", []regConn{c(A, 1, false, -1, -1), c(A, 0, false, -1, 0), c(A, 0, false, 1, -1)}, nil),
 		n("refused-then-owner-served", []regConn{c(A, 2, false, -1, -1), c(A, 0, false, -1, 0), c(B, 0, false, -1, -1)}, []regCall{{Key: A, AfterJoin: 0, AfterLeft: -1}}),
 	}
+	// a custom key function (service.WithKeyFunc): the key comes from the register message only
+	dA := "dev-" + ref.PhoneString(ref.BCD(A, 6))
+	rk := func(s regScn) regScn { s.RegKey = true; return s }
+	out = append(out,
+		rk(n("regkey-late-join", []regConn{{Phone: A, HB: 1, After: -1, AfterJoin: -1, Invalid: 1}},
+			[]regCall{{Key: dA, AfterJoin: 0, AfterLeft: -1}, {Key: ref.PhoneString(ref.BCD(A, 6)), AfterJoin: -1, AfterLeft: -1}})),
+		rk(n("regkey-dup", []regConn{{Phone: A, HB: 1, After: -1, AfterJoin: -1}, {Phone: A, HB: 0, After: -1, AfterJoin: 0, Invalid: 1}},
+			[]regCall{{Key: dA, AfterJoin: 0, AfterLeft: -1}})),
+		rk(n("regkey-leave-rejoin", []regConn{{Phone: A, HB: 0, After: -1, AfterJoin: -1, Close: true}, {Phone: A, HB: 1, After: 0, AfterJoin: -1, Invalid: 1}},
+			[]regCall{{Key: dA, AfterJoin: 1, AfterLeft: -1}})),
+		rk(n("regkey-keyless-leaves", []regConn{{Phone: A, HB: 1, After: -1, AfterJoin: -1}, {Phone: A, After: -1, AfterJoin: 0, Invalid: 1, NoRegister: true, Close: true}},
+			[]regCall{{Key: dA, AfterJoin: 0, AfterLeft: -1}})),
+	)
 	if thorough {
 		out = append(out,
 			n("three-same-key", []regConn{c(A, 0, true, -1, -1), c(A, 0, true, -1, -1), c(A, 1, false, -1, -1)}, nil),
@@ -404,7 +473,7 @@ type regCase struct {
 func init() {
 	vc.Register(&vc.Check{
 		ID: "C11", Level: "model_checking", SingleProc: true,
-		Rule: "10 (thorough 12) skeletons of <=6 registry events over <=3 connections and two keys (duplicate-key connect after/racing the owner's join, close then reconnect, close racing a duplicate, two keys, SendActiveMessage racing a leave / after a leave / to an absent key), each under ALL schedules within the deviation bound (2 quick, 3 thorough); " +
+		Rule: "10 (thorough 12) skeletons of <=6 registry events over <=3 connections and two keys (duplicate-key connect after/racing the owner's join, close then reconnect, close racing a duplicate, two keys, SendActiveMessage racing a leave / after a leave / to an absent key) plus 4 skeletons on a server configured with a custom key function (service.WithKeyFunc: only the register message yields a key; keyless heartbeats first, a duplicate, leave and rejoin, a connection that never gets a key and leaves while the owner is served), each under ALL schedules within the deviation bound (2 quick, 3 thorough); " +
 			"per execution the join/leave/route call-return history is checked for linearizability against a sequential key->connection map with porcupine, refused sockets must be closed, join/leave callbacks are counted, the owner's heartbeats must all be answered. Then EVERY thread interleaving (no preemption bound) of every skeleton with the default environment answers (timers fire when nothing else can run, first ready select case (moving on to the next when the same select is met again), writes succeed), using a cache of happens-before state keys: each state is expanded once, every state and transition is executed at least once (not every path: the linearizability of call/return intervals is decided by the bounded search, the cached search adds the state and transition oracles); the cache is validated per run by a self-test (cached search = every-schedule search on 20 programs that fail when a component of the key is removed) and by comparing a harness digest whenever a key is met again; the flag exhaustive refers to the deviation-bounded families; for the cached pass the counters unbounded_* say how many scenarios closed and how many stopped at the state limit (quick 20000 states, thorough 400000). Non-trivial = schedule with >=1 deviation",
 		Assumptions: []string{"call time of join = first read callback of the connection, of leave = its last earlier callback (intervals are enlarged, never shrunk, so no false alarm)",
 			"commands whose caller never returned are C13's subject and are left out of the history"},
